@@ -131,31 +131,32 @@ func TestMakeKnown(t *testing.T) {
 	setInterior := hx("0700 00 01 01 61 09 02 1e" + "1400 1f 03 02 05")
 	recTrailing := hx("0500 00 01 01 61 09" + "1500 1e 04 02 02 01")
 	want := map[string][]cand{
-		"C11/panic@.(*MapperLookupCache).Lookup":                                       lit("zng", hx("1b00 ffffffffffffffffff01 01"), false, ""),
-		"C11/panic@/zio/zngio.(*buffer).read<-/zio/zngio.(*Decoder).readCountedString": lit("zng", hx("0b00 07 ffffffffffffffffff01"), false, ""),
-		"C11/panic@/zio/zngio.newBuffer":                                               lit("zng", hx("5c00 00 ffffffffffffffffff01 00"), false, ""),
-		"C11/zng/validate-skips-set-interior":                                          lit("zng", setInterior, true, ""),
-		"C11/zng/validate-misses-prim-length":                                          lit("zng", hx("1200 10 01"), true, ""),
-		"C11/zng/validate-misses-type-value":                                           lit("zng", hx("1300 1c 02 41"), true, ""),
-		"C11/zng/validate-misses-map-order":                                            lit("zng", hx("0300 03 09 09"+"1a00 1e 09 0204 0202 0202 0202"), true, ""),
-		"C11/zng/validate-misses-record-trailing":                                      lit("zng", recTrailing, true, ""),
-		"C11/panic@.(*Context).DecodeTypeValue:nil-deref":                              typeEdits([]byte{34, 2, 9}),
-		"C11/panic@.(*Context).DecodeTypeValue:makeslice":                              typeEdits(hx("1e ffffffffffffffffff01")),
-		"C11/panic@.(*Context).DecodeTypeValue:slice-bounds":                           typeEdits(hx("1e 01 ffffffffffffffffff01 61 09")),
-		"C11/panic@/vng.readMetadata":                                                  lit("vng", hx("564e4700 04000000 0000000000000000 0000000000000000"), false, ""),
-		"C11/panic@/vng.readMetadata[unmarshal-of-unvalidated-value]":                  byteMuts("meta"),
-		"C11/panic@/vng.readMetadata[unmarshal-type-mismatch]":                         byteMuts("meta"),
-		"C11/panic@/vng[nil-metadata-node]":                                            byteMuts("meta"),
-		"C11/panic@/vng.(*PrimitiveBuilder).ReadBytes":                                 uintEdits(1<<64 - 1),
-		"C11/panic@/vng.(*DictBuilder).ReadBytes":                                      uintEdits(1<<64 - 1),
-		"C11/alloc/vng/big-blocks":                                                     uintEdits(1<<31 - 1),
-		"C11/panic@/zcode.(*Iter).Next<-/vng.(*PrimitiveBuilder).ReadBytes":            byteMuts("data"),
-		"C11/panic@/vng.(*dynamicBuilder).Read":                                        byteMuts("data"),
-		"C11/panic@/zson.parseStringBytes":                                             lit("zson", []byte(`"\ud800"`), false, ""),
-		"C11/alloc/json/many-small":                                                    lit("json", jsonDeep(1000, 27), false, "named"),
-		"C11/alloc/zson/many-small":                                                    lit("zson", jsonDeep(1000, 27), false, "named"),
-		"C11/alloc/zng/many-small":                                                     lit("zng", zngChains(300, 46), false, "named"),
-		"C11/compile/panic@/compiler/parser.(*current).on*[grammar-action]":            {{Case{Kind: "query", Query: "sort -r -r"}, ""}},
+		"C11/panic@.(*MapperLookupCache).Lookup":                                         lit("zng", hx("1b00 ffffffffffffffffff01 01"), false, ""),
+		"C11/panic@/zio/zngio.(*buffer).read<-/zio/zngio.(*Decoder).readCountedString":   lit("zng", hx("0b00 07 ffffffffffffffffff01"), false, ""),
+		"C11/panic@/zio/zngio.newBuffer":                                                 lit("zng", hx("5c00 00 ffffffffffffffffff01 00"), false, ""),
+		"C11/zng/validate-skips-set-interior":                                            lit("zng", setInterior, true, ""),
+		"C11/zng/validate-misses-prim-length":                                            lit("zng", hx("1200 10 01"), true, ""),
+		"C11/zng/validate-misses-type-value":                                             lit("zng", hx("1300 1c 02 41"), true, ""),
+		"C11/zng/validate-misses-map-order":                                              lit("zng", hx("0300 03 09 09"+"1a00 1e 09 0204 0202 0202 0202"), true, ""),
+		"C11/zng/validate-misses-record-trailing":                                        lit("zng", recTrailing, true, ""),
+		"C11/panic@.(*Context).DecodeTypeValue:nil-deref":                                typeEdits([]byte{34, 2, 9}),
+		"C11/panic@.(*Context).DecodeTypeValue:makeslice":                                typeEdits(hx("1e ffffffffffffffffff01")),
+		"C11/panic@.(*Context).DecodeTypeValue:slice-bounds":                             typeEdits(hx("1e 01 ffffffffffffffffff01 61 09")),
+		"C11/panic@/vng.readMetadata":                                                    lit("vng", hx("564e4700 04000000 0000000000000000 0000000000000000"), false, ""),
+		"C11/panic@/vng.readMetadata[unmarshal-of-unvalidated-value]":                    byteMuts("meta"),
+		"C11/panic@/vng.readMetadata[unmarshal-type-mismatch]":                           byteMuts("meta"),
+		"C11/fatal-stack-overflow@/zson.(*UnmarshalZNGContext).lookupGoType[null-union]": byteMuts("meta"),
+		"C11/panic@/vng[nil-metadata-node]":                                              byteMuts("meta"),
+		"C11/panic@/vng.(*PrimitiveBuilder).ReadBytes":                                   uintEdits(1<<64 - 1),
+		"C11/panic@/vng.(*DictBuilder).ReadBytes":                                        uintEdits(1<<64 - 1),
+		"C11/alloc/vng/big-blocks":                                                       uintEdits(1<<31 - 1),
+		"C11/panic@/zcode.(*Iter).Next<-/vng.(*PrimitiveBuilder).ReadBytes":              byteMuts("data"),
+		"C11/panic@/vng.(*dynamicBuilder).Read":                                          byteMuts("data"),
+		"C11/panic@/zson.parseStringBytes":                                               lit("zson", []byte(`"\ud800"`), false, ""),
+		"C11/alloc/json/many-small":                                                      lit("json", jsonDeep(1000, 27), false, "named"),
+		"C11/alloc/zson/many-small":                                                      lit("zson", jsonDeep(1000, 27), false, "named"),
+		"C11/alloc/zng/many-small":                                                       lit("zng", zngChains(300, 46), false, "named"),
+		"C11/compile/panic@/compiler/parser.(*current).on*[grammar-action]":              {{Case{Kind: "query", Query: "sort -r -r"}, ""}},
 	}
 	idOf := map[string]string{}
 	b, err := os.ReadFile("/verif/harness/c11/known.json")
